@@ -286,3 +286,36 @@ func funcValueLit(p *core.Program, fn *core.FuncRef, e ast.Expr) *ast.FuncLit {
 	}
 	return nil
 }
+
+// helperClosure: fn followed by the unexported functions and methods of its own package that it reaches through
+// static calls (transitively, each once). AST rules that look for a construct "in function F" look in this closure,
+// so that the construct is still found after a maintainer moved it into a helper.
+func helperClosure(p *core.Program, fn *core.FuncRef) []*core.FuncRef {
+	helperInline(p, "", nil)
+	idx := helperDecls[p]
+	out := []*core.FuncRef{fn}
+	seen := map[*types.Func]bool{}
+	if fn.Obj != nil {
+		seen[fn.Obj] = true
+	}
+	for i := 0; i < len(out) && i < 40; i++ {
+		cur := out[i]
+		info := cur.Info()
+		ast.Inspect(cur.Decl.Body, func(n ast.Node) bool {
+			call, ok := n.(*ast.CallExpr)
+			if !ok {
+				return true
+			}
+			f, ok := core.Callee(info, call).(*types.Func)
+			if !ok || f.Pkg() == nil || f.Pkg().Path() != fn.Pkg.PkgPath || f.Exported() || seen[f] {
+				return true
+			}
+			if fr := idx[f]; fr != nil {
+				seen[f] = true
+				out = append(out, fr)
+			}
+			return true
+		})
+	}
+	return out
+}
